@@ -218,9 +218,20 @@ func LiquidityScript(h *Hist) error {
 			return err
 		}
 	}
+	// the shares of the stakeable tokens: an even split, an uneven one, or shares of one coin whose sum only equals
+	// 10000 modulo 2^32 (whatever the contract accepts here, no epoch may be credited more than its emission)
+	znnShares, qsrShares := []uint32{5000, 5000}, []uint32{5000, 5000}
+	switch h.C.Weighted("liq.shares", 4, 2, 1, 1) {
+	case 1:
+		znnShares, qsrShares = []uint32{9999, 1}, []uint32{1, 9999}
+	case 2:
+		znnShares = []uint32{4294967295, 10001}
+	case 3:
+		qsrShares = []uint32{10001, 4294967295}
+	}
 	for i := 0; i < 2; i++ {
 		if err := call("setTokenTuple", definition.SetTokenTupleMethodName, []string{types.ZnnTokenStandard.String(), types.QsrTokenStandard.String()},
-			[]uint32{5000, 5000}, []uint32{5000, 5000}, []*big.Int{big.NewInt(1000), big.NewInt(1000)}); err != nil {
+			znnShares, qsrShares, []*big.Int{big.NewInt(1000), big.NewInt(1000)}); err != nil {
 			return err
 		}
 		if err := produce(int(constants.MinSoftDelay) + 2); err != nil {
